@@ -66,11 +66,25 @@ class _Frozen:
   def reason_unknown(s): return ''
 
 
+def _pure_qfbv(assertions):
+  """True iff every assertion lies in QF_BV (no arrays, no uninterpreted functions, no integers)"""
+  try:
+    g = z3.Goal(); g.add(*assertions)
+    return z3.Probe('is-qfbv')(g) == 1.0
+  except z3.Z3Exception:
+    return False
+
+
 def robust_check(assertions, timeout_ms, want_model=False):
-  """second opinion on a query the default solver gave up on: bit-blast + SAT (QF_BV), then a fresh default solver
-  with the full budget.  Returns a z3 check result (and the solver when want_model)."""
+  """second opinion on a query the incremental solver gave up on: a FRESH default solver with the full budget (the
+  incremental context is what is slow, not the query); only if that is undecided too, and only for pure bit-vector
+  queries, a bit-blasting solver.  (SolverFor('QF_BV') on a query with ARRAYS answers 'sat' for unsatisfiable
+  formulas -- found the hard way, see DESIGN 12 -- so it is never given one.)
+  Returns a z3 check result (and the solver when want_model)."""
   last = None
-  for mk in (lambda: z3.SolverFor('QF_BV'), z3.Solver):
+  makers = [z3.Solver]
+  if _pure_qfbv(assertions): makers.append(lambda: z3.SolverFor('QF_BV'))
+  for mk in makers:
     try:
       s2 = mk(); s2.set('timeout', timeout_ms); s2.add(*assertions)
       r = s2.check(); last = s2
@@ -79,6 +93,8 @@ def robust_check(assertions, timeout_ms, want_model=False):
     if r != z3.unknown:
       return (r, s2) if want_model else r
   return (z3.unknown, last) if want_model else z3.unknown
+
+
 class Explorer:
   """DFS over the feasible paths of a deterministic function by re-execution."""
   cur = None
